@@ -39,6 +39,11 @@ BORDA = ("        top_score = self.n_candidates + self.base - 1\n"
          "        ]\n")
 
 # (label, unit, GenTie file, source file, [(old, new), ..], expectation)
+# the jump-threshold line of ThresholdOpenList.evaluate as written before / after fixes/C11-openlist-jump-exact.diff (an `old` that is a
+# tuple lists alternative spellings of the same source text: the first one present is edited)
+JUMP_LINE = ("jump_thresholds.append(total_votes * self.jump_fraction)",
+             "jump_thresholds.append(\n                Fraction(total_votes) * Fraction(self.jump_fraction)\n            )")
+
 EDITS = [
     ('unchanged threshold.py', 'Threshold', 'GenTie_Threshold', THR, [], 'holds'),
     ('unchanged approval.py', 'Approval', 'GenTie_Approval', APP, [], 'holds'),
@@ -137,9 +142,9 @@ EDITS = [
     ('OpenList: jump test > becomes >=', 'Openlist', 'GenTie_Openlist', OL, [("if n_votes > threshold or (", "if n_votes >= threshold or (")], 'breaks'),
     ('OpenList: max and min swapped', 'Openlist', 'GenTie_Openlist', OL, [("(max if self.take_higher else min)", "(min if self.take_higher else max)")], 'breaks'),
     ('OpenList: jump fraction of the seats', 'Openlist', 'GenTie_Openlist', OL,
-     [("jump_thresholds.append(total_votes * self.jump_fraction)", "jump_thresholds.append(n_seats * self.jump_fraction)")], 'breaks'),
+     [(JUMP_LINE, "jump_thresholds.append(n_seats * self.jump_fraction)")], 'breaks'),
     ('OpenList: equivalent rewrite', 'Openlist', 'GenTie_Openlist', OL,
-     [("jump_thresholds.append(total_votes * self.jump_fraction)", "jump_thresholds.append(self.jump_fraction * total_votes)"),
+     [(JUMP_LINE, "jump_thresholds.append(self.jump_fraction * total_votes)"),
       ("            threshold = (max if self.take_higher else min)(jump_thresholds)\n", "            thr = (min if not self.take_higher else max)(jump_thresholds)\n"),
       ("if n_votes > threshold or (", "if not (n_votes <= thr) or ("), ("self.accept_equal and n_votes == threshold", "self.accept_equal and thr == n_votes")], 'holds'),
     ('OpenList: quota ignored when a fraction is given', 'Openlist', 'GenTie_Openlist', OL,
@@ -185,6 +190,7 @@ def main():
         for label, unit, tie, rel, edits, expect in EDITS:
             orig = open(os.path.join(repo, rel)).read()
             text = orig
+            edits = [(next((o for o in old if o in text), old[0]) if isinstance(old, tuple) else old, new) for old, new in edits]
             missing = [old for old, _ in edits if old not in text]
             if missing:
                 print('SKIP  %-50s pattern not in the source: %r' % (label, missing[0][:60]))
